@@ -169,8 +169,7 @@ func (m *omap) iter(mc *machine) iter {
 		perm := make([]int, 0, n)
 		rest := append([]int(nil), it.order...)
 		for len(rest) > 0 {
-			k := mc.choose(len(rest), "map iteration order")
-			mc.recordChoice("maporder", "choice", uint64(k))
+			k := mc.chooseRec(len(rest), "maporder")
 			perm = append(perm, rest[k])
 			rest = append(rest[:k], rest[k+1:]...)
 		}
